@@ -84,7 +84,12 @@ ChooseCount(ph, nxt, W) ==
     /\ g' = nxt /\ UNCHANGED <<argv, cat, dd, meta, pcl, pform, stdin>> /\ Keep
 ChooseCat(ph, nxt) ==
     /\ Build(ph) /\ cat = ""
-    /\ IF cnt = 0 THEN g' = nxt /\ UNCHANGED cat ELSE (\E j \in 1..Len(OptCats) : cat' = OptCats[j]) /\ UNCHANGED g
+    /\ IF cnt = 0 THEN g' = nxt /\ UNCHANGED cat
+       ELSE /\ \E j \in 1..Len(OptCats) :
+                 \* GNU grep rejects conflicting matchers: at most one -E/-F/-G, and only under the plain name
+                 /\ (OptCats[j] = "mode" => (prog = "xzgrep" /\ \A i \in 1..Len(argv) : <<argv[i]>> \notin OptVocab("mode")))
+                 /\ cat' = OptCats[j]
+            /\ UNCHANGED g
     /\ UNCHANGED <<argv, cnt, dd, meta, pcl, pform, stdin>> /\ Keep
 AddOpt(ph) ==
     /\ Build(ph) /\ cat # "" /\ cnt > 0
